@@ -1,6 +1,7 @@
 package mc
 
 import (
+	"errors"
 	"fmt"
 	"strings"
 	"time"
@@ -33,6 +34,35 @@ func (w *World) monitorRequests() {
 	if w.horizonHit {
 		w.Violate("C11", "no-stabilisation", "execution did not become quiet within %d steps", w.step)
 	}
+	var backoffProbes []error
+	defer func() {
+		// Backoff is nil exactly for the permanent classes; evaluated by a helper
+		// goroutine because Backoff may touch the signal holders, which a parked
+		// goroutine can hold at the end of an execution
+		if len(backoffProbes) == 0 || !stable {
+			return
+		}
+		c := w.client
+		res := make([]bool, len(backoffProbes))
+		done := false
+		w.sch.spawnFree("backoff-probe", func() {
+			for i, err := range backoffProbes {
+				res[i] = c.Backoff(err) == nil
+			}
+			done = true
+		})
+		synctestWait()
+		if !done {
+			return
+		}
+		for i, err := range backoffProbes {
+			var se mqtt.SubscribeError
+			perm := err == nil || mqtt.IsDeny(err) || mqtt.IsEnd(err) || errors.As(err, &se)
+			if res[i] != perm {
+				w.Violate("C14", "backoff-class", "Backoff(%v) nil=%t, want nil=%t", err, res[i], perm)
+			}
+		}
+	}()
 	for _, a := range w.actors {
 		if a.spec.Reader != nil {
 			continue
@@ -107,10 +137,7 @@ func (w *World) monitorRequests() {
 				w.Violate("C14", "deny-and-end", "%s op %d (%s) returned %v, which is IsDeny and IsEnd at once", a.spec.Name, r.Idx, op.Kind, r.Err)
 			}
 			if kind != "close" && kind != "online" && kind != "offline" && w.client != nil {
-				perm := r.Err == nil || mqtt.IsDeny(r.Err) || mqtt.IsEnd(r.Err) || has("SubscribeError")
-				if (w.client.Backoff(r.Err) == nil) != perm {
-					w.Violate("C14", "backoff-class", "Backoff(%v) nil=%t, want nil=%t", r.Err, !perm, perm)
-				}
+				backoffProbes = append(backoffProbes, r.Err)
 			}
 			if kind == "close" {
 				continue
